@@ -176,6 +176,24 @@ pub fn run(run: &Run) {
             }
         });
     }
+    {
+        let mut all = super::pipe::distinct_runs_with_repeats(&pools().width, "");
+        all.extend(super::pipe::distinct_runs_with_repeats(&pools().width, "x"));
+        super::pipe::battery(run, "distinct_width_runs_with_repeats", &all, &|s, l| profs.iter().all(|p| match check(*p, s, l) {
+            Ok(()) => true,
+            Err(v) => {
+                run.violate(v);
+                false
+            }
+        }));
+    }
+    super::pipe::battery(run, "block_representatives", &super::pipe::block_representative_strings(), &|s, l| profs.iter().all(|p| match check(*p, s, l) {
+        Ok(()) => true,
+        Err(v) => {
+            run.violate(v);
+            false
+        }
+    }));
     super::pipe::collisions(run, "fingerprint_collisions", &|s, l| profs.iter().all(|p| match check(*p, s, l) {
         Ok(()) => true,
         Err(v) => {
